@@ -18,6 +18,10 @@ fn main() {
         std::process::exit(2);
     }
     let prop = args[1].clone();
+    if prop == "c19-child" {
+        props::c19::child(args[2].parse().unwrap());
+        return;
+    }
     if prop == "dev-rt" {
         use assembly::ast::{AstSerdeOptions, ProgramAst};
         use vm_core::utils::SliceReader;
@@ -96,6 +100,7 @@ fn main() {
             "C16" => props::c16::replay(&ctx, &v),
             "C17" => props::c17::replay(&ctx, &v),
             "C18" => props::c18::replay(&ctx, &v),
+            "C19" => props::c19::replay(&ctx, &v),
             _ => {
                 eprintln!("unknown property {prop}");
                 std::process::exit(2);
@@ -118,6 +123,7 @@ fn main() {
             "C16" => props::c16::run(&ctx),
             "C17" => props::c17::run(&ctx),
             "C18" => props::c18::run(&ctx),
+            "C19" => props::c19::run(&ctx),
             _ => {
                 eprintln!("unknown property {prop}");
                 std::process::exit(2);
